@@ -29,13 +29,15 @@ type unit struct {
 	file  string   // file below the repository root
 	funcs []string // declarations to translate ("*" = all); methods as ".Name"
 	vars  []string // package-level variables whose initialiser is translated
+	extra [][3]string // functions of other files, linked in under another name: {file, name, as}
 }
 
 var units = []unit{
-	{"matchProg", "match/match.go", []string{"*"}, []string{"DefaultMatcher"}},
-	{"coreStepProg", "core/step.go", []string{"IsBranchTargetVariable", ".target"}, nil},
-	{"coreActionsProg", "core/actions.go", []string{"isPermanent"}, nil},
-	{"coreUtilProg", "core/util.go", []string{"Unquestion"}, nil},
+	{"matchProg", "match/match.go", []string{"*"}, []string{"DefaultMatcher"}, nil},
+	{"coreStepProg", "core/step.go", []string{"IsBranchTargetVariable", ".target"}, nil, nil},
+	{"coreActionsProg", "core/actions.go", []string{"isPermanent"}, nil, nil},
+	{"coreUtilProg", "core/util.go", []string{"Unquestion"}, nil, nil},
+	{"toolsProg", "tools/analysis.go", []string{"*"}, nil, [][3]string{{"core/step.go", "IsBranchTargetVariable", "core.IsBranchTargetVariable"}}},
 }
 
 var (
@@ -43,6 +45,7 @@ var (
 	imports map[string]bool          // local names of imported packages
 	mapTys  map[string]bool          // named types whose underlying type is a map
 	structs map[string][]string      // struct type -> field names in order
+	structTys map[string][]ast.Expr  // struct type -> field types in order
 	unsupp  []string
 )
 
@@ -262,6 +265,20 @@ func composite(x *ast.CompositeLit, elided string) string {
 					return unsupported("struct literal arity", x)
 				}
 			}
+			// fields the literal does not mention hold their zero values
+			given := map[string]bool{}
+			for i, el := range x.Elts {
+				if kv, ok := el.(*ast.KeyValueExpr); ok {
+					given[kv.Key.(*ast.Ident).Name] = true
+				} else if i < len(fields) {
+					given[fields[i]] = true
+				}
+			}
+			for i, f := range fields {
+				if !given[f] {
+					out = append(out, "("+lstr(f)+", (GE.lit "+zeroOf(structTys[id.Name][i])+"))")
+				}
+			}
 			return "(GE.compKV " + lstr(id.Name) + " " + llist(out) + ")"
 		}
 	}
@@ -335,6 +352,10 @@ func lhs(e ast.Expr) string {
 		return "(GL.index " + expr(x.X) + " " + expr(x.Index) + ")"
 	case *ast.ParenExpr:
 		return lhs(x.X)
+	case *ast.SelectorExpr:
+		if id, ok := x.X.(*ast.Ident); !ok || !imports[id.Name] {
+			return "(GL.field " + expr(x.X) + " " + lstr(x.Sel.Name) + ")"
+		}
 	}
 	unsupp = append(unsupp, "unsupported: assignment target "+tyStr(e))
 	return "(GL.index " + unsupported("assignment target "+tyStr(e), e) + " (GE.lit GV.nil))"
@@ -380,6 +401,12 @@ func stmt(s ast.Stmt, label string) string {
 	case *ast.BlockStmt:
 		return "(GS.block " + block(x) + ")"
 	case *ast.ExprStmt:
+		// sort.Strings(x) sorts in place; slices are values here, so it becomes x = sorted(x)
+		if c, ok := x.X.(*ast.CallExpr); ok && tyStr(c.Fun) == "sort.Strings" && len(c.Args) == 1 {
+			if id, ok := c.Args[0].(*ast.Ident); ok {
+				return "(GS.assign false [(GL.var " + lstr(id.Name) + ")] [" + expr(c) + "])"
+			}
+		}
 		return "(GS.expr " + expr(x.X) + ")"
 	case *ast.LabeledStmt:
 		switch x.Stmt.(type) {
@@ -569,6 +596,7 @@ func main() {
 		}
 		mapTys = map[string]bool{}
 		structs = map[string][]string{}
+		structTys = map[string][]ast.Expr{}
 		// type declarations of the whole package directory
 		pkgs, _ := parser.ParseDir(fset, filepath.Dir(filepath.Join(*repo, u.file)), nil, 0)
 		for _, pkg := range pkgs {
@@ -585,12 +613,15 @@ func main() {
 							mapTys[ts.Name.Name] = true
 						case *ast.StructType:
 							var fs []string
+							var tys []ast.Expr
 							for _, fl := range t.Fields.List {
 								for _, n := range fl.Names {
 									fs = append(fs, n.Name)
+									tys = append(tys, fl.Type)
 								}
 							}
 							structs[ts.Name.Name] = fs
+							structTys[ts.Name.Name] = tys
 						}
 					}
 				}
@@ -605,11 +636,7 @@ func main() {
 			want[n] = true
 		}
 		var names []string
-		for _, d := range f.Decls {
-			fd, ok := d.(*ast.FuncDecl)
-			if !ok || fd.Body == nil {
-				continue
-			}
+		emit := func(fd *ast.FuncDecl, file, asName string) {
 			key := fd.Name.Name
 			recv, recvTy := "", ""
 			if fd.Recv != nil && len(fd.Recv.List) == 1 {
@@ -621,8 +648,8 @@ func main() {
 					recv = "_recv"
 				}
 			}
-			if !all && !want[key] {
-				continue
+			if asName == "" && !all && !want[key] {
+				return
 			}
 			var params []string
 			variadic := false
@@ -645,6 +672,9 @@ func main() {
 					}
 				}
 			}
+			if asName != "" {
+				key = asName
+			}
 			ln := u.name + "_" + strings.Map(func(r rune) rune {
 				if r == '.' {
 					return 'M'
@@ -653,7 +683,35 @@ func main() {
 			}, key)
 			names = append(names, ln)
 			fmt.Fprintf(&b, "/-- `%s` of %s%s -/\ndef %s : FnDecl :=\n  { name := %s, recv := %s, params := %s, variadic := %v,\n    body := %s }\n\n",
-				fd.Name.Name, u.file, map[bool]string{true: " (receiver " + recvTy + ")", false: ""}[recvTy != ""], ln, lstr(key), lstr(recv), llist(params), variadic, body)
+				fd.Name.Name, file, map[bool]string{true: " (receiver " + recvTy + ")", false: ""}[recvTy != ""], ln, lstr(key), lstr(recv), llist(params), variadic, body)
+		}
+		for _, d := range f.Decls {
+			if fd, ok := d.(*ast.FuncDecl); ok && fd.Body != nil {
+				emit(fd, u.file, "")
+			}
+		}
+		for _, ex := range u.extra {
+			xf, err := parser.ParseFile(fset, filepath.Join(*repo, ex[0]), nil, 0)
+			if err != nil {
+				fmt.Fprintln(os.Stderr, "go2lean:", err)
+				os.Exit(2)
+			}
+			saved := imports
+			imports = map[string]bool{}
+			for _, im := range xf.Imports {
+				p, _ := strconv.Unquote(im.Path.Value)
+				n := p[strings.LastIndex(p, "/")+1:]
+				if im.Name != nil {
+					n = im.Name.Name
+				}
+				imports[n] = true
+			}
+			for _, d := range xf.Decls {
+				if fd, ok := d.(*ast.FuncDecl); ok && fd.Body != nil && fd.Recv == nil && fd.Name.Name == ex[1] {
+					emit(fd, ex[0], ex[2])
+				}
+			}
+			imports = saved
 		}
 		var globals []string
 		for _, d := range f.Decls {
